@@ -49,6 +49,7 @@ TNext == \/ Internal /\ UNCHANGED <<l, races, cc>>
          \/ Ev("Reply") /\ UNCHANGED cc /\ Reply(handles[J.h], J.c) /\ reps' = J.r
                         /\ (J.ok <=> (J.c \in pcs[handles[J.h]].conns /\ ~sclosed[J.c] /\ cst[J.c] = "open"))
          \/ Ev("Skipped") /\ UNCHANGED cc /\ UNCHANGED vars
+         \/ Ev("HAbort") /\ UNCHANGED cc /\ UNCHANGED vars     \* deadline + Close on one of several handles: private to that handle
          \/ Ev("End") /\ UNCHANGED cc /\ UNCHANGED vars
          \/ l <= Len(Tr) /\ J.ev = "Exit" /\ l' = l + 1 /\ UNCHANGED <<vars, cc>>
 TSpec == TInit /\ [][TNext]_tv
